@@ -538,16 +538,36 @@ func diffTrees(before, after Tree) ([]Entry, error) {
 	usedSrc := map[string]string{}
 	pair := map[string]string{} // new path -> old path
 	score := map[string]int{}
+	// phase 1, as git does it: files whose content is unchanged are paired first and leave the pool, so a
+	// weak-hash collision between an unrelated deleted file and a moved one cannot make the move ambiguous
 	for _, a := range added {
+		var exact []string
+		for _, d := range deleted {
+			if _, taken := usedSrc[d]; !taken && sameLines(before[d].Lines, after[a].Lines) {
+				exact = append(exact, d)
+			}
+		}
+		if len(exact) > 1 {
+			return nil, fmt.Errorf("ambiguous rename sources %v for %q", exact, a)
+		}
+		if len(exact) == 1 {
+			usedSrc[exact[0]] = a
+			pair[a] = exact[0]
+			score[a] = int(maxScore)
+		}
+	}
+	// phase 2: similarity >= 50 % among what is left
+	for _, a := range added {
+		if _, done := pair[a]; done {
+			continue
+		}
 		var cands []string
 		var best int
 		for _, d := range deleted {
-			sc := 0
-			if sameLines(before[d].Lines, after[a].Lines) {
-				sc = int(maxScore)
-			} else {
-				sc = similarity(before[d].Bytes(), after[a].Bytes())
+			if prev, taken := usedSrc[d]; taken && score[prev] == int(maxScore) && sameLines(before[d].Lines, after[prev].Lines) {
+				continue // left the pool in phase 1
 			}
+			sc := similarity(before[d].Bytes(), after[a].Bytes())
 			if sc >= minimumScore {
 				cands = append(cands, d)
 				best = sc
